@@ -407,6 +407,7 @@ def check(ctx: Ctx) -> None:
 
 L, B, PF = "pipefunc/lazy.py", "pipefunc/_pipeline/_base.py", "pipefunc/_pipefunc.py"
 MUTANTS = [
+    Mutant("lazy-node-holds-a-lock", L, "        self._id = _LazyFunction._counter\n", "        self._id = _LazyFunction._counter\n        self._lock = threading.RLock()\n", ("C18.2-memo",), why="round-8 seed C18/22"),
     Mutant("shared-mutable-default", "pipefunc/lazy.py", "def evaluate_lazy(x: Any) -> Any:\n", "def evaluate_lazy(x: Any, _seen: list = []) -> Any:  # noqa: B006\n    _seen.append(id(x))\n", ("C18.5-dag",), why="round-6 seed C18/17 (the rule's expected count is zero: this is its positive example)"),
     Mutant("cache-update-forces", "pipefunc/_pipeline/_cache.py", "    # Used in _run\n    if isinstance(cache, HybridCache):\n", "    # Used in _run\n    from pipefunc.lazy import evaluate_lazy\n\n    evaluate_lazy(r)\n    if isinstance(cache, HybridCache):\n", ("C18.1-deferred",), why="round-6 seed C18/16"),
     Mutant("containers-by-isinstance-F42", "pipefunc/lazy.py", "    if container_type is tuple:\n", "    if isinstance(x, tuple):\n", ("C18.4-recursion",), why="original F42"),
